@@ -53,6 +53,7 @@ class Recorder:
         self.logdir = None
         self.logs_broken = False
         self.log_checks = []
+        self.orphans = []
 
     def cur(self):
         try:
@@ -232,15 +233,26 @@ def run_ops(max_cores, ops, fine=False, yield_in_spawn=False):
     real_killpg = os.killpg
 
     async def fake_shell(script, stdout=None, stderr=None, cwd=None, **kwargs):
-        tid = rec.cur()
-        if yield_in_spawn:
-            await asyncio.sleep(0)
+        # the scheduler may start the process from a helper task: the task id travels in the script text
+        tid = int(script.rsplit("tid=", 1)[1]) if "tid=" in script else rec.cur()
         if rec.spawn_fail:
+            if yield_in_spawn:
+                await asyncio.sleep(0)
             rec.log("f:%s" % tid)
             raise FileNotFoundError(cwd)
+        # like asyncio: the OS process exists BEFORE the call returns (pipes are connected afterwards)
         rec.log("p:%s" % tid)
         p = FakeProc(tid, loop)
         rec.max_alive = max(rec.max_alive, rec.alive())
+        if yield_in_spawn:
+            try:
+                await asyncio.sleep(0)
+            except asyncio.CancelledError:
+                # asyncio's own clean-up of a cancelled start-up kills the shell's pid only: what the script
+                # has spawned meanwhile keeps running (and keeps the pipes open)
+                p.do_exit(-9)
+                rec.orphans.append(tid)
+                raise
         return p
 
     def fake_killpg(pid, sig):
@@ -281,7 +293,7 @@ def run_ops(max_cores, ops, fine=False, yield_in_spawn=False):
                 rec.log("e:%s:%s" % (",".join(str(d) for d in deps), "-" if limit is None else limit))
 
                 async def e():
-                    tid = await s.enqueue_task("t%d" % len(s.tasks), "true", wd, limit, deps)
+                    tid = await s.enqueue_task("t%d" % len(s.tasks), "true # tid=%d" % len(s.tasks), wd, limit, deps)
                     rec.task2tid[s.tasks[tid]] = tid
 
                     def done_cb(t, tid=tid):
@@ -344,6 +356,8 @@ def run_ops(max_cores, ops, fine=False, yield_in_spawn=False):
             loop.advance(1)
             do_settle()
         states = {k: v.name.lower() for k, v in s.task_states.items()}
+        if rec.orphans:
+            problems.append("child-process-survives-cancel-or-timeout (start-up of task %s was cancelled: only the shell was killed)" % rec.orphans[0])
         log_checks = rec.log_checks
         sem_value = s.cores_ressource._value
         return {"labels": rec.labels, "states": states, "max_alive": rec.max_alive, "problems": problems,
